@@ -69,7 +69,7 @@ def gen(rng, tier):
         if r < 0.04 and L >= 3:
             seq[rng.randrange(1, L - 1)] = rng.choice(["Input", "Output"])   # inadmissible: model only
         cases.append({"kind": "seq", "recipes": [V.enc_recipe(leaf(rng, c)) for c in seq],
-                      "conv": rng.choice(["varargs", "list", "tuple"])})
+                      "conv": rng.choice(["varargs", "varargs", "list", "list", "tuple", "tuple", "namedtuple", "listsub"])})
     # an un-annotated convolution directly behind a node whose output type fits it (channels and rank): from_list must still
     # use the GIVEN conv object, untouched
     def conv(nd, shape):
@@ -116,6 +116,14 @@ def run(c):
                 g = nir.NIRGraph.from_list(*nodes)
             elif c["conv"] == "list":
                 g = nir.NIRGraph.from_list(list(nodes))
+            elif c["conv"] == "namedtuple":
+                import collections
+                NT = collections.namedtuple("Layers", [f"l{i}" for i in range(len(nodes))])
+                g = nir.NIRGraph.from_list(NT(*nodes))
+            elif c["conv"] == "listsub":
+                class Layers(list):
+                    pass
+                g = nir.NIRGraph.from_list(Layers(nodes))
             else:
                 g = nir.NIRGraph.from_list(tuple(nodes))
         obs = ("ok", g)
